@@ -87,6 +87,9 @@ class C12Module(py2coq.NumModule):
                 return f'(ninterp {E(n.args[0])} (combine {env[xs.id][5:]} {env[ys.id][5:]}))'
             if isinstance(f, ast.Name) and f.id == 'ThrustModeValues' and len(n.args) == 4 and not n.keywords:
                 return '(' + ', '.join(E(x) for x in n.args) + ')'
+        if isinstance(n, ast.Attribute) and isinstance(n.value, ast.Name) and n.value.id in ('np', 'math') \
+                and n.attr == 'pi':
+            return lit_text('3.141592653589793')          # the binary64 of numpy.pi, written out
         if isinstance(n, ast.Name) and n.id in env and env[n.id][:5] in ('(*l*)', '(*m*)', '(*s*)'):
             raise Untranslatable(f'{where}: {n.id} used in numeric position')
         return super().expr(n, env, where)
@@ -105,9 +108,13 @@ class C12Module(py2coq.NumModule):
                     t = f'(mode_eqb {env[key][5:]} {MODES[m]})'
                     return f'(negb {t})' if neg else t
                 raise Untranslatable(f'{where}: comparison of a non-mode with ThrustMode.{m}')
-            if isinstance(left, ast.Name) and env.get(left.id, '').startswith('(*s*)') \
+            try:
+                lkey = left.id if isinstance(left, ast.Name) else self._attr_key(left)
+            except Untranslatable:
+                lkey = None
+            if lkey is not None and env.get(lkey, '').startswith('(*s*)') \
                     and isinstance(right, ast.Constant) and isinstance(right.value, str) and '"' not in right.value:
-                t = f'(String.eqb {env[left.id][5:]} "{right.value}")'
+                t = f'(String.eqb {env[lkey][5:]} "{right.value}")'
                 return f'(negb {t})' if neg else t
         return super().bexpr(n, env, where)
 
@@ -210,7 +217,8 @@ class C12Module(py2coq.NumModule):
     def _bind(self, spec, where):
         """spec: list of (python name, kind) ; kind in num | tmv | mode | str | attrs:<a,b> | modeattr:<a>"""
         env, sig = {}, []
-        for p, kind in spec:
+        flat = [(p, k1) for p, kind in spec for k1 in kind.split(';')]
+        for p, kind in flat:
             if kind == 'num':
                 env[p] = self._cid(p, 'v_')
                 sig.append(f'({env[p]} : T N)')
@@ -228,6 +236,10 @@ class C12Module(py2coq.NumModule):
                 for a in kind[6:].split(','):
                     env[f'{p}.{a}'] = f'{p}_{a}'
                     sig.append(f'({p}_{a} : T N)')
+            elif kind.startswith('strattr:'):
+                a = kind[8:]
+                env[f'{p}.{a}'] = f'(*s*){p}_{a}'
+                sig.append(f'({p}_{a} : string)')
             elif kind.startswith('modeattr:'):
                 a = kind[9:]
                 env[f'{p}.{a}'] = f'(*m*){p}_{a}'
@@ -266,13 +278,18 @@ class C12Module(py2coq.NumModule):
             e = self.expr(dflt[nme], {}, f'{fname}:{nme}')
             self.defs.append(f'Definition {prefix}{nme} : T N := {e}.')
 
-    def slice_fn(self, path, fname, coq_name, spec, first, last, output=None, rtype=None):
+    def slice_fn(self, path, fname, coq_name, spec, first, last, output=None, rtype=None, body_of=None):
         """Translate the top-level statements of `fname` from the first assignment to `first` through the
         next assignment to `last` as a function of `spec` returning `output` (default `last`)."""
         mod = self._src(path)
         fn = find_function(mod, fname)
         where = f'{Path(path).name}:{fname}[{first}..{last}]'
         body = strip_doc(fn.body)
+        if body_of is not None:      # the statements of the top-level `if <body_of>:` block
+            blocks = [st for st in body if isinstance(st, ast.If) and ast.unparse(st.test) == body_of and not st.orelse]
+            if len(blocks) != 1:
+                raise Untranslatable(f'{where}: expected exactly one `if {body_of}:` block')
+            body = blocks[0].body
 
         def tgt(s):
             if isinstance(s, ast.Assign) and len(s.targets) == 1:
@@ -294,6 +311,24 @@ class C12Module(py2coq.NumModule):
         text = self.block(body[i0:i1 + 1] + [retn], env, where, [], True, None)
         ty = f' : {rtype}' if rtype else ''
         self.defs.append(f'Definition {coq_name} {" ".join(sig)}{ty} :=\n{text}.')
+
+    def list_consts(self, path, fname, target, coq_prefix, expect):
+        """Every assignment `target = np.array([...])` inside `fname` (nested functions included), in source
+        order, as Definition <coq_prefix>_<i> : list (T N)."""
+        mod = self._src(path)
+        fn = find_function(mod, fname)
+        where = f'{Path(path).name}:{fname}:{target}'
+        found = sorted((n for n in ast.walk(fn) if isinstance(n, ast.Assign) and len(n.targets) == 1
+                        and isinstance(n.targets[0], ast.Name) and n.targets[0].id == target),
+                       key=lambda n: n.lineno)
+        if len(found) != expect:
+            raise Untranslatable(f'{where}: expected {expect} assignments, found {len(found)}')
+        for i, n in enumerate(found):
+            e = self.expr(n.value, {}, where)
+            if not e.startswith('['):
+                raise Untranslatable(f'{where}: not a literal array')
+            nme = coq_prefix if expect == 1 else f'{coq_prefix}_{i}'
+            self.defs.append(f'Definition {nme} : list (T N) := {e}.')
 
     def text(self) -> str:
         return ('(* generated by translator/c12_extract.py from the current /repo working tree — do not edit *)\n'
@@ -396,6 +431,67 @@ def extract_scope11(m: C12Module, path: Path):
 # the whole module
 # ---------------------------------------------------------------------------
 
+class _SelfAttr(ast.NodeTransformer):
+    """self.x -> self_x"""
+
+    def visit_Attribute(self, n):
+        self.generic_visit(n)
+        if isinstance(n.value, ast.Name) and n.value.id == 'self':
+            return ast.copy_location(ast.Name(id='self_' + n.attr, ctx=n.ctx), n)
+        return n
+
+
+def extract_atmos_state(m: C12Module, path: Path):
+    """emissions/types.py:AtmosphericState.__init__(self, altitude, tas): exactly three assignments
+    self.temperature / self.pressure / self.mach (any order of use), translated pointwise to
+    atmos_state_init altitude tas = (temperature, pressure, mach)."""
+    mod = m._src(path)
+    fn = find_function(mod, '__init__', cls='AtmosphericState')
+    where = 'types.py:AtmosphericState.__init__'
+    if [a.arg for a in fn.args.args] != ['self', 'altitude', 'tas']:
+        raise Untranslatable(f'{where}: signature')
+    body = strip_doc(fn.body)
+    tg = []
+    for st in body:
+        if not (isinstance(st, ast.Assign) and len(st.targets) == 1 and isinstance(st.targets[0], ast.Attribute)
+                and isinstance(st.targets[0].value, ast.Name) and st.targets[0].value.id == 'self'):
+            raise Untranslatable(f'{where}: statement {ast.unparse(st)[:60]}')
+        tg.append(st.targets[0].attr)
+    if sorted(tg) != ['mach', 'pressure', 'temperature']:
+        raise Untranslatable(f'{where}: assigns {tg}')
+    stmts = [_SelfAttr().visit(st) for st in body]
+    retn = ast.Return(value=ast.Tuple(elts=[ast.Name(id='self_' + a, ctx=ast.Load())
+                                            for a in ('temperature', 'pressure', 'mach')], ctx=ast.Load()))
+    env = {'altitude': 'v_altitude', 'tas': 'v_tas'}
+    text = m.block(stmts + [retn], env, where, [], True, None)
+    m.defs.append(f'Definition atmos_state_init (v_altitude v_tas : T N) : T N * T N * T N :=\n{text}.')
+
+
+def extract_meem(m: C12Module, path: Path):
+    """The elementwise statements of PMnvol_MEEM, one definition per quantity (statement slices)."""
+    f = 'PMnvol_MEEM'
+    N = 'num'
+    m.list_consts(path, f, 'GMD_mode', 'meem_GMD_mode', 1)
+    m.list_consts(path, f, 'AFR_mode', 'meem_AFR_mode', 1)
+    m.list_consts(path, f, 'tgrid', 'meem_tgrid', 3)
+    m.list_consts(path, f, 't_GMD', 'meem_t_GMD', 1)
+    m.slice_fn(path, f, 'meem_recon_mass', [('SN', N), ('AFR_mode', N), ('EDB_data', 'attrs:BP_Ratio;strattr:engine_type')],
+               'CI_mass', 'EI_mass_mode', body_of='np.min(EI_mass_mode) < 0', rtype='T N')
+    m.slice_fn(path, f, 'meem_recon_num', [('EI_mass_mode', N), ('GMD_mode', N)], 'EI_num_mode', 'EI_num_mode',
+               body_of='np.min(EI_num_mode) < 0', rtype='T N')
+    m.slice_fn(path, f, 'meem_eta', [('alt_rate', N)], 'eta_comp', 'eta_comp', rtype='T N')
+    m.slice_fn(path, f, 'meem_lin', [('altitudes', N), ('max_alt', N)], 'lin_vary_alt', 'lin_vary_alt', rtype='T N')
+    m.slice_fn(path, f, 'meem_pc', [('alt_rate', N), ('lin_vary_alt', N)], 'pressure_coef', 'pressure_coef', rtype='T N')
+    m.slice_fn(path, f, 'meem_Tt', [('Tamb_cruise', N), ('machFlight', N)], 'Tt_amb', 'Tt_amb', rtype='T N')
+    m.slice_fn(path, f, 'meem_Pt', [('Pamb_cruise', N), ('machFlight', N)], 'Pt_amb', 'Pt_amb', rtype='T N')
+    m.slice_fn(path, f, 'meem_P3', [('Pt_amb', N), ('pressure_coef', N), ('max_pr', N)], 'P3', 'P3', rtype='T N')
+    m.slice_fn(path, f, 'meem_T3', [('Tt_amb', N), ('eta_comp', N), ('P3', N), ('Pt_amb', N)], 'T3', 'T3', rtype='T N')
+    m.slice_fn(path, f, 'meem_P3ref', [('T3', N), ('eta_comp', N)], 'T3_ref', 'P3_ref', rtype='T N')
+    m.slice_fn(path, f, 'meem_F', [('P3_ref', N), ('max_pr', N)], 'FG_over_Foo', 'FG_over_Foo', rtype='T N')
+    m.slice_fn(path, f, 'meem_EI_mass', [('EI_ref_mass', N), ('P3', N), ('P3_ref', N)], 'EI_mass', 'EI_mass', rtype='T N')
+    m.slice_fn(path, f, 'meem_EI_num', [('EI_ref_num', N), ('EI_mass', N), ('EI_ref_mass', N)], 'EI_num', 'EI_num', rtype='T N')
+
+
 def extract_c12(repo: Path) -> str:
     src = Path(repo) / 'src/AEIC'
     m = C12Module('C12_Extracted')
@@ -405,6 +501,10 @@ def extract_c12(repo: Path) -> str:
     m.function(sa, 'temperature_at_altitude_isa_bada4')
     m.function(sa, 'pressure_at_altitude_isa_bada4')
     m.function(sa, 'altitude_from_pressure_isa_bada4')
+    m.function(sa, 'calculate_speed_of_sound')
+    m.function(sa, 'speed_of_sound_at_altitude')
+    m.function(sa, 'calculate_air_density')
+    extract_atmos_state(m, src / 'emissions/types.py')
     sox = src / 'emissions/ei/sox.py'
     m.constants(sox, ['MW_SO2', 'MW_SO4', 'MW_S'])
     m.function(sox, 'EI_SOx', attrs={'fuel': ['fuel_sulfur_content_nom', 'sulfate_yield_nom']},
@@ -430,6 +530,7 @@ def extract_c12(repo: Path) -> str:
     m.function_ex(pv, 'EI_PMvol_FuelFlow', [('fuelflow', 'num'), ('thrustMode', 'modeattr:data')], rtype='T N * T N')
     m.function_ex(pv, 'EI_PMvol_FOA3', [('thrusts', 'num'), ('HCEI', 'num')], rtype='T N * T N')
     extract_scope11(m, src / 'emissions/ei/pmnvol.py')
+    extract_meem(m, src / 'emissions/ei/pmnvol.py')
     return m.text()
 
 
